@@ -21,9 +21,9 @@ CONSTANTS
   BugPadCredit = FALSE
   EncodeAtEnqueue = FALSE
   BugZeroCostHeld = FALSE
-  SplitOnlyAtEnqueue = TRUE
+  SplitOnlyAtEnqueue = FALSE
   DropOnClose = FALSE
-  ForwardInitWin = FALSE
+  ForwardInitWin = TRUE
   WithSettings = TRUE
-INVARIANTS WithinGrant WithinMaxFrame CreditReturned NoEligibleQueued LedgerAgrees PrefixFidelity Conserved HpackInOrder
+INVARIANTS NotStarved
 CHECK_DEADLOCK FALSE
